@@ -39,8 +39,8 @@ CLAIMED = {
             "TLC exhaustive request-class graph of Http.tla replayed on the real HTTP mux",
             "DESIGN.md §4 C08"),
     "C01": ("model_checking",
-            "TLC enumerates the complete labelled transition graph of spec/Vault.tla for a family of 38 callers (all-access, empty, every "
-            "single action x pattern rule, split rules, a multi-rule set) x every operation and argument x existing/absent/reserved/empty names "
+            "TLC enumerates the complete labelled transition graph of spec/Vault.tla for a family of 39 callers (all-access, empty, every "
+            "single action x pattern rule, split rules, a multi-rule set, a head/tail-overlapping wildcard) x every operation and argument x existing/absent/reserved/empty names "
             "in every reachable bounded state, and checks AclGate / EffectImpliesGrant / ListExact on it; every edge is then executed on the real "
             "db.DB and through the real HTTP handlers (WhoIs carrying the rules), comparing reply class, payload, audit record and the full state "
             "before/after. Random histories with arbitrary generated rule sets are validated line by line by TLC, which recomputes Allow with the "
